@@ -84,6 +84,16 @@ def run(tier):
             chk.add_mc(res, "MC_Households[mix3]")
             pops = rnd.sample(pops, min(20000, len(pops)))
             all_events += collect(chk, pops, rnd, None, "mix3")
+    if not quick:
+        # beyond the exhaustive bound: random behaviours of the model (tlc -simulate) up to 8 persons, all dimensions on
+        for n, num, mo in ((5, 480, 120), (6, 240, 60), (8, 160, 40)):
+            gen, viol, pops = units.simulate_structures(chk.work, f"sim{n}", n, [10, 17, 24, 25, 40, 70], 2, True, True, num, chk.seed + n)
+            if viol:
+                chk.violation(f"C12|spec-invariant|sim{n}|{','.join(sorted(set(viol)))}", "reference partitions violate a nesting theorem on a simulated structure", {})
+            chk.cov["states"] = chk.cov.get("states", 0) + gen
+            chk.cov["transitions"] = chk.cov.get("transitions", 0) + gen
+            chk.notes.setdefault("simulated_structures", {})[n] = len(pops)
+            all_events += collect(chk, pops, rnd, mo, f"sim{n}")
     verdicts, st = units.judge(all_events, chk.work, "reg")
     chk.cov["traces_validated_against_impl"] += st["judged"]
     chk.notes["unambiguous_structures_judged"] = st["unambiguous"]
